@@ -70,12 +70,20 @@ func genDegenerate(g kit.G, c *kit.Corpus, depth int) kit.QSpec {
 		if len(q.Kids) == 0 || !g.Bool(25, "lookalike") {
 			return
 		}
-		k := q.Kids[g.U(len(q.Kids), "lakid")]
+		ki := g.U(len(q.Kids), "lakid")
+		k := q.Kids[ki]
 		if k.Op != "substr" && k.Op != "regex" {
 			return
 		}
 		switch g.U(4, "laflag") {
 		case 0:
+			if k.Op == "regex" && g.Bool(60, "lanamere") {
+				// a regexp taken from a file name: the bare form also matches
+				// names, the content-only form does not
+				pat, _ := kit.GenRegexpText(g, c, true, false)
+				q.Kids[ki].Pat, q.Kids[ki].Content, q.Kids[ki].File = pat, false, false
+				k = q.Kids[ki]
+			}
 			k.Content, k.File = !k.Content, false
 		case 1:
 			k.File, k.Content = !k.File, false
